@@ -248,3 +248,24 @@ PROPS["C09"] = dict(
     level_note="Trusted: the reference model; porcupine; gossipsub delivering the relay's own publication to its own subscription before later messages.",
     assumptions=["race reports in go-libipni frames are recorded as diagnostics (the property does not claim race freedom)"],
 )
+
+PROPS["C16"] = dict(
+    race=True,
+    shards={"quick": 8, "thorough": 16},
+    level="exploration",
+    design_ref="DESIGN.md §2 C16",
+    technique="runtime monitor: hang rule (two goroutine dumps, library frame, no progress) over exhaustive call sequences and seeded interleavings; goroutine-dump leak check",
+    rule=("sequences: EVERY sequence of length <= 4 (quick) / 5 (thorough) over {Close, Direct, Next, UncacheCid} that contains a Close, on a "
+          "receiver without pubsub, followed by one more call of each kind; each call runs under a watchdog whose firing alone decides nothing: a "
+          "hang is reported only if two goroutine dumps one second apart show the call blocked in the same stack with a go-libipni frame. Direct "
+          "and Next, which may legitimately wait, get a context that is cancelled after a grace period. interleavings: 2..4 goroutines with seeded "
+          "scripts racing Close with the other calls, then calls after the Close completed must return the closed error; pubsub-shutdown: "
+          "receiver on a real libp2p host + gossip topic, 1..3 concurrent closers, watcher goroutine must be gone. distinct_nontrivial = "
+          "distinct sequences / script sets."),
+    floors={"quick": {"sequences_with_repeated_close": 50, "concurrent_runs": 250, "pubsub_shutdowns": 5}},
+    watchdog_s={"quick": 900, "thorough": 7200},
+    gomaxprocs=4,
+    level_text=("Exploration (sequential part exhaustive to the stated length): every call is observed to return; hangs are decided "
+                "logically from goroutine dumps, never from elapsed time alone."),
+    level_note="Trusted: the hang rule's reading of goroutine dumps; the 40 ms grace before cancelling the context of calls that may legitimately wait only affects which admissible result is expected.",
+)
